@@ -1188,3 +1188,118 @@ def check_C14(tier, seed):
     return res.finish(gate)
 
 CHECKS['C14'] = check_C14
+
+# ---------------------------------------------------------------- C07
+def check_C07(tier, seed):
+    import itertools
+    from .gen.sexp import Dot, Wrap, BQ, UQ, SPL
+    res = Result('C07', tier, seed); res.pending = []
+    gate = proof_gate('C07')
+    core.build_model(); core.build_impl()
+    rng = random.Random(seed)
+    tid = [0]
+    def tk(e): tid[0] += 1; return ['tick', tid[0], e]
+    unq_exprs = ['x', 'l1', ['+', 1, 2], Q('sym'), Str('s'), ['list', 'x', 'x'], 'l0']
+    spl_exprs = ['l0', 'l1', 'l3', ['list', 'x', 2], Q([7, 8]), None, ['cdr', 'l3'], 'l3']
+    # template grammar
+    def gen_item(d):
+        x = rng.random()
+        if x < 0.3: return rng.choice([1, 'a', Str('s'), ':k', None, 2.5])
+        if x < 0.5: return UQ(tk(rng.choice(unq_exprs)))
+        if x < 0.7: return SPL(tk(rng.choice(spl_exprs)))
+        if x < 0.78: return Q(gen_item(d - 1) if d > 0 else 'q')
+        if x < 0.83: return Q(UQ(tk(rng.choice(unq_exprs))))
+        if d <= 0: return 'b'
+        return gen_tmpl(d - 1)
+    def gen_tmpl(d):
+        n = rng.choice([0, 1, 2, 3, 4])
+        items = [gen_item(d) for _ in range(n)]
+        if items and rng.random() < 0.2:
+            c = rng.choice([0, 1, 2])
+            t = UQ(tk(rng.choice(unq_exprs + spl_exprs))) if c == 0 else ('tl' if c == 1 else 5)
+            return Dot(items, t)
+        return items
+    def to_cons(t):
+        """The equivalent list / cons / append construction."""
+        if isinstance(t, Wrap):
+            if t.pre == ',': return t.x
+            if t.pre == "'": return ['list', Q('quote'), to_cons(t.x)] if False else ['bqquote', to_cons(t.x)]
+            return Q(t)
+        if isinstance(t, (list, Dot)) and (isinstance(t, Dot) or len(t) > 0):
+            its = t.items if isinstance(t, Dot) else t
+            parts = []
+            for i in its:
+                if isinstance(i, Wrap) and i.pre == ',@': parts.append(i.x)
+                else: parts.append(['list', to_cons(i)])
+            parts.append(to_cons(t.tail) if isinstance(t, Dot) else None)
+            return ['append'] + parts
+        return Q(t) if isinstance(t, (str, list)) and not (isinstance(t, str) and t.startswith(':')) else t
+    prelude = "(setq x 5) (setq l0 nil) (setq l1 '(one)) (setq l3 '(p q r)) (defun bqquote (v) (list 'quote v))"
+    # Quote wrappers are objects, not (quote x) lists: compare printed forms of the wrapper-free part via equal on a construction
+    items = []
+    ntemplates = tier_n(tier, 1500, 40000)
+    for _ in range(ntemplates):
+        tid[0] = 0
+        t = gen_tmpl(2)
+        text_t = render(BQ(t))
+        has_quote = "'" in render(t)
+        cons = render(to_cons(t))
+        # strip ticks from the construction so that each unquote is logged once per evaluation of the template only
+        prog = ("%s (defun mk () %s) (let ((r1 (mk)) (r2 (mk))) (list r1 (equal r1 r2) %s (list x l0 l1 l3)))"
+                % (prelude, text_t, ('(equal r1 %s)' % re.sub(r'\(tick \d+ ', '(progn ', cons)) if not has_quote else 't'))
+        items.append((prog, {'tmpl': text_t, 'nticks': tid[0]}))
+    # exhaustive small templates: up to 3 items over a fixed item set, optional dotted tail
+    small = [1, 'a', UQ('x'), UQ('l3'), SPL('l0'), SPL('l1'), SPL('l3'), ['b', UQ('x')], [SPL('l3')], Q(UQ('x'))]
+    tails = [None, UQ('x'), UQ('l3'), 'tl']
+    nex = 0
+    for n in range(0, tier_n(tier, 3, 4)):
+        for its in itertools.product(small, repeat=n):
+            for tl in tails:
+                if n == 0 and tl is not None: continue
+                t = list(its) if tl is None else Dot(list(its), tl)
+                text_t = render(BQ(t))
+                has_quote = "'" in render(t)
+                prog = ("%s (defun mk () %s) (let ((r1 (mk)) (r2 (mk))) (list r1 (equal r1 r2) %s (list x l0 l1 l3)))"
+                        % (prelude, text_t, ('(equal r1 %s)' % render(to_cons(t))) if not has_quote else 't'))
+                items.append((prog, {'tmpl': text_t, 'nticks': 0})); nex += 1
+    # freshness: spine cells and nested sublists of two evaluations are different objects; the spliced list is not the result's tail
+    fresh = []
+    for t in ["`(1 2 3)", "`(a (b c) d)", "`(1 ,x (2 3))", "`(,@l3 z)", "`(0 ,@l3)", "`((a) ,@l1 (b))", "`(,x . ,l3)"]:
+        fresh.append(("%s (defun mk () %s) (let ((r1 (mk)) (r2 (mk))) (list (eq r1 r2) (eq (cdr r1) (cdr r2)) (eq (cdr r1) l3) (eq (cdr r1) (cdr l3)) (if (consp (cadr r1)) (eq (cadr r1) (cadr r2))) (if (consp (car r1)) (eq (car r1) (car r2)))))" % (prelude, t),
+                      {'tmpl': t, 'fresh': True}))
+    rows = run_exprs(res, items, per_case=20)
+    rows2 = run_exprs(res, fresh, per_case=10, tag='f')
+    nv = 0
+    distinct = set()
+    for text, meta, im, mo in rows:
+        if im is None: continue
+        distinct.add(im['payload'][:60] if im['kind'] == 'V' else (im['kind'], meta['tmpl'][:20]))
+        if im['kind'] == 'V':
+            m = re.search(r' (t|nil) (t|nil) \(5 nil \(one\) \(p q r\)\)\)$', im['payload'])
+            why = None
+            if not m: why = 'source variables changed by evaluating the template'
+            elif m.group(1) != 't': why = 'two evaluations of one template are not equal'
+            elif m.group(2) != 't': why = 'value differs from the equivalent list/cons/append construction'
+            # each unquote evaluated exactly once per evaluation, left to right
+            tl = [int(a) for a, _ in (im['ticks'] or [])]
+            n = meta['nticks']
+            if why is None and n and tl != list(range(1, n + 1)) * 2: why = 'unquoted parts not evaluated once each, left to right: %s' % tl
+            if why:
+                nv += 1
+                if nv <= 8: res.violation('backquote', {'program': text, 'template': meta['tmpl'], 'impl': im, 'why': why})
+    for text, meta, im, mo in rows2:
+        if im is None: continue
+        if im['kind'] != 'V' or 't' in re.sub(r'[()]', ' ', im['payload']).split():
+            nv += 1
+            if nv <= 8: res.violation('backquote-sharing', {'program': text, 'impl': im, 'why': 'results of two evaluations share cells with each other or with a spliced list'})
+    res.cov['distinct_nontrivial'] = len(distinct)
+    res.cov['exhaustive_templates'] = nex
+    res.cov['rule'] = ('exhaustive: all templates of up to %d items over {atom, symbol, ,x, ,list, ,@nil, ,@one, ,@many, sublist with unquote, sublist of a splice, quoted unquote} x tail {none, ,x, ,list, atom}; '
+                       'random nested templates (depth 2) with ticked unquotes; each template is evaluated twice through a function; oracle: equal to the list/append construction, both results equal, '
+                       'unquotes logged once each in order, spliced and read variables unchanged afterwards, spine cells not shared (eq); correspondence with the model' % (tier_n(tier, 3, 4) - 1))
+    res.cov['samples'] = [rows[0][1]['tmpl'], rows[len(rows) // 2][1]['tmpl'], rows[-1][1]['tmpl']]
+    for d in res.pending:
+        res.violation('disagreement', d, no_input=not oracle_confirms(d))
+    return res.finish(gate)
+
+CHECKS['C07'] = check_C07
